@@ -52,7 +52,10 @@ L[4]['invariant'] = L[4]['invariant'] + ['C07.romberg.col0.kept.m:: ' + FC % 'nm
 L[4]['body_end'] = L[4]['body_end'] + (' assert forall|g: spec_fn(real) -> real| #[trigger] is_graph_r(f, g) implies first_col(r.data.v@, nmax as int, g, rv(a), rv(b), nmax - 1) by { '
                                        'assert(first_col(pre_t, nmax as int, g, rv(a), rv(b), nmax - 1)); assert forall|q: int| 0 <= q < nmax implies rv(#[trigger] at2(r.data.v@, nmax as int, q, 0)) == col0(g, rv(a), rv(b), q) by { assert(at2(r.data.v@, nmax as int, q, 0) == at2(pre_t, nmax as int, q, 0)); } }')
 romberg2.loops = L
-romberg2.hints = [('r[[0, 0]] = ', 'after', 'proof { lemma_idx(0, 0, nmax as int, nmax as int); assert(0 * nmax + 0 == 0); }')] + [(a_, w_, t_.replace('assert(romberg_result(nmax as int, out_));', 'assert(romberg_result2(f, a, b, nmax as int, out_));')) for (a_, w_, t_) in c07.romberg.hints]
+romberg2.hints = [('r[[0, 0]] = ', 'after', 'proof { lemma_idx(0, 0, nmax as int, nmax as int); assert(0 * nmax + 0 == 0); }')] + [(a_, w_, t_.replace('assert(romberg_result(nmax as int, out_));', 'assert(romberg_result2(f, a, b, nmax as int, out_));')) for (a_, w_, t_) in c07.romberg.hints[:-1]]
+# the value after the last level is bound structurally (tail expression, whatever its text): it must be the full diagonal entry R[nmax-1][nmax-1]
+romberg2.tail = ('out_', 'let t_ = r.data.v@; lemma_idx(nmax - 1, nmax - 1, nmax as int, nmax as int); assert(t_.len() == nmax * nmax); assert(richardson(t_, nmax as int, nmax - 1)); '
+                         'assert(out_ == at2(t_, nmax as int, nmax - 1, nmax - 1)); assert(romberg_result2(f, a, b, nmax as int, out_));', '')
 UNITS = [
     Unit('C07_romberg', 'C07', [romberg2], use=core.core_stubs(), spec=c07.SPEC + c07.ROM_SPEC + COL_SPEC, preludes=c07.PRE, broadcast=c07.BC + ('l1_fun',), level='L1', types=core.TYPES, type_spec=core.TYPE_SPEC, rlimit=200,
          notes='romberg returns a diagonal entry (last level, or a level >= 2) of one tableau whose entries (n,m), m >= 1, are the Richardson extrapolation of their left and upper-left neighbours with factor 4^m - 1 '
